@@ -707,7 +707,7 @@ pub fn matches_parts(matcher: &str, class: &str, c: &Value) -> bool {
         }
         // audit V6: a module called `a.b` and the module `b` inside `a` give their items the same symbol
         "dotted_module_name_duplicate_symbol" => {
-            class.starts_with("panic:src/codegen/mod.rs:") && msg.contains("DuplicateDefinition") && input_has_dotted_module(&c["input"])
+            class.starts_with("panic:src/codegen/mod.rs:") && (msg.contains("DuplicateDefinition(") || msg.contains("IncompatibleSignature(")) && input_has_dotted_module(&c["input"])
         }
         // N5
         "eq_on_zero_sized_field" => {
